@@ -17,7 +17,8 @@ def run(ctx):
                     "lists as compressible reach Name::compress_append, the names whose RFCs forbid compression never do; R2 recorded "
                     "offsets are <= 0x3FFF (C03-R3) and the pointer is `offset | 0xC000` written big-endian; R5 a suffix is left out of the table only when its offset is >= 0x4000; R3 the offset stored for a "
                     "suffix is the writer position captured before any byte of that label is written, keyed by the suffix starting at "
-                    "that label; R4 offsets are relative to the first byte of the message.")
+                    "that label; R4 offsets are relative to the first byte of the message; R6 the table of names already written is created once "
+                    "per message (not per section or per record).")
     rows = load_tsv("compression.tsv")
     seqs = compress.compressed_sequences(ctx)
     ca = ctx.must_find(report, "simple_dns::Name::compress_append")
@@ -178,4 +179,7 @@ def run(ctx):
     else:
         report.nontriv("origin captured")
     report.assumptions += ["A-SEEK", "`expands to the intended name` beyond R3 is not decided (value-level)"]
+    # R6: "a repeated name is written as a pointer" needs the names written earlier in the message: one table per message
+    import c03
+    c03.one_table(ctx, report, pw, "C07-R6")
     return report.finish()
